@@ -136,62 +136,88 @@ func c09PerOperation(r *Result) {
 		}
 		return kmip.DestroyRequest{UniqueIdentifier: "k"}
 	}
+	// every optional header field the request may carry beside its credentials: none of them is a way around the gate
+	type hvariant struct {
+		name string
+		set  func(h *kmip.RequestHeader)
+	}
+	variants := []hvariant{
+		{"plain header", func(h *kmip.RequestHeader) {}},
+		{"Asynchronous Indicator = true", func(h *kmip.RequestHeader) { h.AsynchronousIndicator = true }},
+		{"Batch Count one more than the items", func(h *kmip.RequestHeader) { h.BatchCount++ }},
+		{"Batch Count = 0", func(h *kmip.RequestHeader) { h.BatchCount = 0 }},
+		{"Maximum Response Size = 1", func(h *kmip.RequestHeader) { h.MaxResponseSize = 1 }},
+		{"Batch Order Option and Continue", func(h *kmip.RequestHeader) { h.BatchOrderOption = true; h.BatchErrorContinuationOption = 1 }},
+		{"Attestation Capable, Time Stamp and correlation values", func(h *kmip.RequestHeader) {
+			h.AttestationCapableIndicator = true
+			h.TimeStamp = time.Unix(1500000000, 0)
+			h.ClientCorrelationValue = "c"
+			h.ServerCorrelationValue = "s"
+		}},
+		{"unsupported protocol version 9.9", func(h *kmip.RequestHeader) { h.Version = kmip.ProtocolVersion{Major: 9, Minor: 9} }},
+	}
 	for _, customDV := range []bool{false, true} {
 		for _, withCallback := range []bool{true, false} {
-			for _, b := range batches {
-				key := fmt.Sprintf("batch of %s with credentials the callback rejects (callback configured: %v, Discover Versions handler registered by the application: %v)", b.name, withCallback, customDV)
-				crumb("C09 scenario: " + key)
-				r.eval(key, true)
-				var calls int32
-				s := &kmip.Server{}
-				if withCallback {
-					s.RequestAuthHandler = func(sc *kmip.SessionContext, a *kmip.Authentication) (interface{}, error) {
-						return nil, fmt.Errorf("unknown user")
+			for vi, hv := range variants {
+				for _, b := range batches {
+					if vi > 0 && (customDV || len(b.ops) != 2 || b.ops[1] != kmip.OPERATION_GET) {
+						continue // header variants: on the mixed batch, built-in Discover Versions
 					}
+					key := fmt.Sprintf("batch of %s with credentials the callback rejects (callback configured: %v, Discover Versions handler registered by the application: %v, %s)", b.name, withCallback, customDV, hv.name)
+					crumb("C09 scenario: " + key)
+					r.eval(key, true)
+					var calls int32
+					s := &kmip.Server{}
+					if withCallback {
+						s.RequestAuthHandler = func(sc *kmip.SessionContext, a *kmip.Authentication) (interface{}, error) {
+							return nil, fmt.Errorf("unknown user")
+						}
+					}
+					count := func(ctx *kmip.RequestContext, item *kmip.RequestBatchItem) (interface{}, error) {
+						atomic.AddInt32(&calls, 1)
+						return nil, nil
+					}
+					s.Handle(kmip.OPERATION_GET, count)
+					if customDV {
+						s.Handle(kmip.OPERATION_DISCOVER_VERSIONS, count)
+					}
+					sc, cc := rec.Pipe()
+					rc := rec.NewConn(sc, 1)
+					l := rec.NewListener()
+					l.Push(rec.AcceptStep{Conn: rc})
+					init := make(chan struct{})
+					ret := make(chan error, 1)
+					go func() { ret <- s.Serve(l, init) }()
+					<-init
+					_ = cc.SetDeadline(time.Now().Add(3 * time.Second))
+					req := &kmip.Request{Header: kmip.RequestHeader{Version: kmip.ProtocolVersion{Major: 1, Minor: 4}, BatchCount: int32(len(b.ops)),
+						Authentication: kmip.Authentication{CredentialType: kmip.CREDENTIAL_TYPE_USERNAME_AND_PASSWORD, CredentialValue: kmip.CredentialUsernamePassword{Username: "mallory", Password: "x"}}}}
+					for i, op := range b.ops {
+						req.BatchItems = append(req.BatchItems, kmip.RequestBatchItem{Operation: op, UniqueID: []byte{byte(i + 1)}, RequestPayload: payload(op)})
+					}
+					hv.set(&req.Header)
+					var resp kmip.Response
+					err := kmip.NewEncoder(cc).Encode(req)
+					if err == nil {
+						err = kmip.NewDecoder(cc).Decode(&resp)
+					}
+					closed := false
+					select {
+					case <-rc.Closed():
+						closed = true
+					case <-time.After(2 * time.Second):
+					}
+					obs := fmt.Sprintf("handler-calls=%d response=%v closed-by-server=%v", atomic.LoadInt32(&calls), err == nil, closed)
+					if obs != "handler-calls=0 response=false closed-by-server=true" {
+						r.find(Finding{Kind: "violation", What: "a request whose credentials were not accepted was not refused outright", Input: key, Expect: "handler-calls=0 response=false closed-by-server=true", Actual: obs})
+					}
+					cc.Close()
+					ctx, cancel := context.WithTimeout(context.Background(), 5*time.Second)
+					_ = s.Shutdown(ctx)
+					cancel()
+					<-ret
+					r.Stats["per-operation-gate-scenarios"]++
 				}
-				count := func(ctx *kmip.RequestContext, item *kmip.RequestBatchItem) (interface{}, error) {
-					atomic.AddInt32(&calls, 1)
-					return nil, nil
-				}
-				s.Handle(kmip.OPERATION_GET, count)
-				if customDV {
-					s.Handle(kmip.OPERATION_DISCOVER_VERSIONS, count)
-				}
-				sc, cc := rec.Pipe()
-				rc := rec.NewConn(sc, 1)
-				l := rec.NewListener()
-				l.Push(rec.AcceptStep{Conn: rc})
-				init := make(chan struct{})
-				ret := make(chan error, 1)
-				go func() { ret <- s.Serve(l, init) }()
-				<-init
-				_ = cc.SetDeadline(time.Now().Add(3 * time.Second))
-				req := &kmip.Request{Header: kmip.RequestHeader{Version: kmip.ProtocolVersion{Major: 1, Minor: 4}, BatchCount: int32(len(b.ops)),
-					Authentication: kmip.Authentication{CredentialType: kmip.CREDENTIAL_TYPE_USERNAME_AND_PASSWORD, CredentialValue: kmip.CredentialUsernamePassword{Username: "mallory", Password: "x"}}}}
-				for i, op := range b.ops {
-					req.BatchItems = append(req.BatchItems, kmip.RequestBatchItem{Operation: op, UniqueID: []byte{byte(i + 1)}, RequestPayload: payload(op)})
-				}
-				var resp kmip.Response
-				err := kmip.NewEncoder(cc).Encode(req)
-				if err == nil {
-					err = kmip.NewDecoder(cc).Decode(&resp)
-				}
-				closed := false
-				select {
-				case <-rc.Closed():
-					closed = true
-				case <-time.After(2 * time.Second):
-				}
-				obs := fmt.Sprintf("handler-calls=%d response=%v closed-by-server=%v", atomic.LoadInt32(&calls), err == nil, closed)
-				if obs != "handler-calls=0 response=false closed-by-server=true" {
-					r.find(Finding{Kind: "violation", What: "a request whose credentials were not accepted was not refused outright", Input: key, Expect: "handler-calls=0 response=false closed-by-server=true", Actual: obs})
-				}
-				cc.Close()
-				ctx, cancel := context.WithTimeout(context.Background(), 5*time.Second)
-				_ = s.Shutdown(ctx)
-				cancel()
-				<-ret
-				r.Stats["per-operation-gate-scenarios"]++
 			}
 		}
 	}
